@@ -373,16 +373,13 @@ func BufferSnippet(b []byte) string {
 	return fmt.Sprintf("%q...%q", bStart, bEnd)
 }
 
-func normalizeHeaderValue(ov []byte) (nv []byte) {
-	nv = ov
-	length := len(ov)
-	if length <= 0 {
-		return
-	}
-	write := 0
+// normalizeHeaderValue appends the un-folded form of the multi-line value ov to dst: line breaks are
+// dropped and a tab that starts a continuation line becomes a space. The read buffer that ov points
+// into is left untouched: it may hold the body and pipelined requests behind the header block, and a
+// header parse that runs out of data is retried on the same bytes.
+func normalizeHeaderValue(dst, ov []byte) []byte {
 	lineStart := false
-	for read := 0; read < length; read++ {
-		c := ov[read]
+	for _, c := range ov {
 		if c == '\r' || c == '\n' {
 			if c == '\n' {
 				lineStart = true
@@ -393,19 +390,9 @@ func normalizeHeaderValue(ov []byte) (nv []byte) {
 		} else {
 			lineStart = false
 		}
-		nv[write] = c
-		write++
+		dst = append(dst, c)
 	}
-
-	// The value is compacted in place. Pad what is left of it with spaces instead of
-	// moving the rest of the buffer: the bytes behind the value (the remaining headers,
-	// the body, pipelined requests) must keep their position and the buffer its length,
-	// and a parse that is retried once more data has arrived sees a single-line value
-	// whose trailing spaces are trimmed.
-	for i := write; i < length; i++ {
-		ov[i] = ' '
-	}
-	return nv[:write]
+	return dst
 }
 
 func stripSpace(b []byte) []byte {
